@@ -47,7 +47,51 @@ def dump_tree(node, store):
     return [fs, cs]
 
 
+def tags_arg(op, pool):
+    """op[6] (optional) says in which form the tags are handed to add_field: "list" (default), "str", "none",
+    "tuple", "frozenset", "set" (a fresh set) or "shared:<k>": ONE set object per k for the whole case (and its
+    pre-history), created from the tags of its first use and passed again, as the same object, later."""
+    names = [tname(t) for t in op[5]]
+    mode = op[6] if len(op) > 6 else "list"
+    if mode == "str":
+        return " ".join(names)
+    if mode == "none":
+        return None if not names else names
+    if mode == "tuple":
+        return tuple(names)
+    if mode == "frozenset":
+        return frozenset(names)
+    if mode == "set":
+        return set(names)
+    if mode.startswith("shared:"):
+        k = mode[7:]
+        if k not in pool:
+            pool[k] = set(names)
+        return pool[k]
+    return names
+
+
+def run_pre(ops, L, pool):
+    """operations on another BitField of the same process (outputs ignored) that shares the pool of tag sets"""
+    root = BitField(L)
+    insts = [root]
+    for op in ops:
+        b = insts[op[1]] if op[1] < len(insts) else insts[0]
+        try:
+            if op[0] == "add":
+                b.add_field(fname(op[2]), length=op[3], start_at=op[4], tags=tags_arg(op, pool))
+            elif op[0] == "call":
+                insts.append(b(**{fname(i): v for i, v in op[2]}))
+            elif op[0] == "assign":
+                b.assign_fields()
+        except Exception:
+            pass
+
+
 def run_case(c):
+    pool = {}
+    if c.get("pre_ops"):
+        run_pre(c["pre_ops"], c["L"], pool)
     root = BitField(c["L"])
     insts = [root]
     adds = []                      # (op index, instance, name) of every successful add_field
@@ -71,7 +115,7 @@ def run_case(c):
         b = inst(op[1])
         try:
             if kind == "add":
-                b.add_field(fname(op[2]), length=op[3], start_at=op[4], tags=[tname(t) for t in op[5]])
+                b.add_field(fname(op[2]), length=op[3], start_at=op[4], tags=tags_arg(op, pool))
                 adds.append((k, b, fname(op[2])))
                 r = ["none"]
             elif kind == "call":
